@@ -1,10 +1,11 @@
 import Driver.Proto
 import Driver.OpsSpec
+import Driver.OpsBits
 open Driver
 
 /-- stateless op families: each returns `none` for ops it does not know -/
 def families : List (String → List String → List String → Option (Except String (String × String))) :=
-  [ OpsSpec.handle ]
+  [ OpsSpec.handle, OpsBits.handle ]
 
 /-- dispatch one line `op args… => impl observation…`: returns `<model> ## <verdict>` -/
 def handleLine (line : String) : String :=
